@@ -19,14 +19,14 @@ def S(t):
 
 # attribute-style and method-style members: cls -> [(rendering template, type, needs_args)]
 MEMBERS = {
-    "Evt": [(".met", F), (".run", I), (".jets()", S(JET)), (".nums()", S(I)), (".met", F)],
+    "Evt": [(".met", F), (".run", I), (".jets()", S(JET)), (".nums()", S(I)), (".met", F), (".groups()", S(S(I)))],
     "Jet": [(".pt", F), (".eta", F), (".idx", I), (".ok()", B), (".trks()", S(TRK)), (".scaled({F}, {I})", F), (".pt", F)],
     "Trk": [(".pt", F), (".n", I), (".good()", B), (".pt", F)],
 }
 # C01 flavour: everything is a method (what a typed func_adl model looks like), with omitted defaults / keywords
 MEMBERS_METHODS = {
     "Evt": [(".met()", F), (".run()", I), (".jets()", S(JET)), (".jets('b')", S(JET)), (".jets(cut={F})", S(JET)),
-            (".jets('a', {F})", S(JET)), (".nums()", S(I)), (".scaled()", F), (".scaled({F})", F), (".scaled(off={I})", F)],
+            (".jets('a', {F})", S(JET)), (".nums()", S(I)), (".groups()", S(S(I))), (".scaled()", F), (".scaled({F})", F), (".scaled(off={I})", F)],
     "Jet": [(".pt()", F), (".eta()", F), (".idx()", I), (".ok()", B), (".trks()", S(TRK)), (".trks(minpt={F})", S(TRK)),
             (".scaled()", F), (".scaled({F})", F), (".scaled(off={I})", F), (".scaled({F}, {I})", F), (".scaled(off={I}, f={F})", F)],
     "Trk": [(".pt()", F), (".n()", I), (".good()", B), (".scaled()", F), (".scaled({I})", F), (".scaled(f={F})", F)],
@@ -625,6 +625,7 @@ def dataset(draw, max_events=3):
     def evt():
         nid[0] += 1
         return {"id": nid[0], "met": draw(fl), "run": draw(st.integers(0, 5)), "nums": draw(st.lists(st.integers(-3, 6), max_size=3)),
+                "groups": draw(st.lists(st.lists(st.integers(-3, 6), max_size=2), max_size=2)),
                 "jets": [jet() for _ in range(draw(st.integers(0, 3)))]}
 
     n = draw(st.integers(0, max_events))
